@@ -153,6 +153,122 @@ pub fn replay_waitgroup(e: &WEdge) -> Vec<String> {
     mm
 }
 
+#[derive(Deserialize)]
+pub struct SEdge { pub c: usize, pub h: Vec<Vec<Value>>, pub obs: SObs }
+#[derive(Deserialize)]
+pub struct SObs { pub live: usize, pub fst: Vec<String>, pub stopped: Vec<bool>, pub sfut: Vec<String>, pub swake: Vec<bool>, pub sreg: Vec<bool> }
+
+/// A transport on which nothing ever arrives and everything can be written.
+struct IdleIo { reads: Arc<AtomicUsize> }
+impl futures_util::io::AsyncRead for IdleIo {
+    fn poll_read(self: Pin<&mut Self>, _: &mut Context<'_>, _: &mut [u8]) -> Poll<std::io::Result<usize>> { self.reads.fetch_add(1, Ordering::SeqCst); Poll::Pending }
+}
+impl futures_util::io::AsyncWrite for IdleIo {
+    fn poll_write(self: Pin<&mut Self>, _: &mut Context<'_>, b: &[u8]) -> Poll<std::io::Result<usize>> { Poll::Ready(Ok(b.len())) }
+    fn poll_flush(self: Pin<&mut Self>, _: &mut Context<'_>) -> Poll<std::io::Result<()>> { Poll::Ready(Ok(())) }
+    fn poll_close(self: Pin<&mut Self>, _: &mut Context<'_>) -> Poll<std::io::Result<()>> { Poll::Ready(Ok(())) }
+}
+fn constrain_idle<F>(f: F) -> F
+where F: for<'a, 'b> FnMut(&'a mut fastcgi_server::async_io::Request<'b, IdleIo, IdleIo>) -> futures_util::future::BoxFuture<'a, std::io::Result<fastcgi_server::ExitStatus>> { f }
+
+/// Does this token see its runner's stop request?  The token is given an idle connection: a stopped token
+/// returns from `Token::run` at its first poll without touching the transport, any other parks on the read.
+fn token_sees_stop(t: Token) -> Result<bool, String> {
+    let reads = Arc::new(AtomicUsize::new(0));
+    let calls = Arc::new(AtomicUsize::new(0));
+    let c2 = calls.clone();
+    let handler = constrain_idle(move |_req| { c2.fetch_add(1, Ordering::SeqCst); Box::pin(async { Ok(fastcgi_server::ExitStatus::SUCCESS) }) });
+    let mut fut = Box::pin(t.run(IdleIo { reads: reads.clone() }, IdleIo { reads: reads.clone() }, handler));
+    let cw = Arc::new(CountWaker(AtomicUsize::new(0)));
+    let w: Waker = cw.into();
+    let r = fut.as_mut().poll(&mut Context::from_waker(&w));
+    if calls.load(Ordering::SeqCst) > 0 { return Err("handler invoked on an idle connection".into()); }
+    match r {
+        Poll::Ready(()) => { if reads.load(Ordering::SeqCst) > 0 { Err("a stopped idle connection read from the transport before returning".into()) } else { Ok(true) } },
+        Poll::Pending => Ok(false),
+    }
+}
+
+/// Replays one history of MC_Server (runner + clone, shared limit, separate shutdown) on the real types.
+pub fn replay_server(e: &SEdge) -> Vec<String> {
+    let mut mm = Vec::new();
+    let config = Config::with_conns(e.c.try_into().expect("nz"));
+    let first = config.async_runner();
+    let second = first.clone();
+    // get_token futures borrow their runner and shutdown() consumes it: the specification only shuts a runner down when
+    // none of its request futures is outstanding (what the borrow checker enforces), so raw pointers are sound here
+    let ptrs: [*mut Runner; 2] = [Box::into_raw(Box::new(first)), Box::into_raw(Box::new(second))];
+    let mut alive = [true, true];
+    type TokFutL = Pin<Box<dyn Future<Output = Token>>>;
+    let nf = e.obs.fst.len();
+    let mut futs: Vec<Option<TokFutL>> = (0..nf).map(|_| None).collect();
+    let mut tokens: Vec<Option<Token>> = (0..nf).map(|_| None).collect();
+    let wakers: Vec<Arc<CountWaker>> = (0..nf).map(|_| Arc::new(CountWaker(AtomicUsize::new(0)))).collect();
+    let swakers: Vec<Arc<CountWaker>> = (0..2).map(|_| Arc::new(CountWaker(AtomicUsize::new(0)))).collect();
+    let mut sseen = [0usize; 2];
+    let mut sfuts: Vec<Option<Pin<Box<dyn Future<Output = ()>>>>> = vec![None, None];
+    let mut sdone = [false, false];
+    for (i, op) in e.h.iter().enumerate() {
+        let x = op[1].as_u64().unwrap_or(1) as usize - 1;
+        match op[0].as_str().unwrap_or("") {
+            "new" => { let r: &'static Runner = unsafe { &*ptrs[x % 2] }; futs[x] = Some(Box::pin(r.get_token())); },
+            "poll" => {
+                let want = op[2].as_str().unwrap_or("");
+                let w: Waker = wakers[x].clone().into();
+                let res = futs[x].as_mut().expect("future exists").as_mut().poll(&mut Context::from_waker(&w));
+                match res {
+                    Poll::Ready(t) => { tokens[x] = Some(t); futs[x] = None;
+                        if want != "ready" { mm.push(format!("step {i}: request {} completed, specification: stays pending", x + 1)); break; } },
+                    Poll::Pending => if want != "pending" { mm.push(format!("step {i}: request {} is pending although a slot is free", x + 1)); break; },
+                }
+            },
+            "dropf" => futs[x] = None,
+            "dropt" => tokens[x] = None,
+            "shutdown" => {
+                if futs.iter().enumerate().any(|(f, fu)| f % 2 == x && fu.is_some()) { mm.push(format!("step {i}: specification shuts runner {} down while one of its request futures is outstanding", x + 1)); break; }
+                let r = unsafe { *Box::from_raw(ptrs[x]) };
+                alive[x] = false;
+                sfuts[x] = Some(Box::pin(r.shutdown()));
+            },
+            "polls" => {
+                let want = op[2].as_str().unwrap_or("");
+                let w: Waker = swakers[x].clone().into();
+                sseen[x] = swakers[x].0.load(Ordering::SeqCst);
+                match sfuts[x].as_mut().expect("shutdown future").as_mut().poll(&mut Context::from_waker(&w)) {
+                    Poll::Ready(()) => { sdone[x] = true; sfuts[x] = None;
+                        if want != "ready" { mm.push(format!("step {i}: shutdown future of runner {} completed while {} of its tokens are alive (all live tokens: {})", x + 1, tokens.iter().enumerate().filter(|(f, t)| f % 2 == x && t.is_some()).count(), tokens.iter().filter(|t| t.is_some()).count())); break; } },
+                    Poll::Pending => if want != "pending" { mm.push(format!("step {i}: shutdown future of runner {} is pending although none of its tokens is alive (tokens of the other runner: {})", x + 1, tokens.iter().enumerate().filter(|(f, t)| f % 2 != x && t.is_some()).count())); break; },
+                }
+            },
+            o => { mm.push(format!("unknown op {o}")); break; },
+        }
+        let live = tokens.iter().filter(|t| t.is_some()).count();
+        if live > e.c { mm.push(format!("step {i}: {live} live tokens exceed the shared limit {}", e.c)); }
+    }
+    if mm.is_empty() {
+        let live = tokens.iter().filter(|t| t.is_some()).count();
+        if live != e.obs.live { mm.push(format!("{live} live tokens, specification {}", e.obs.live)); }
+        for r in 0..2 {
+            if e.obs.sfut[r] == "pending" && sfuts[r].is_some() && (e.obs.sreg[r] || e.obs.swake[r]) {
+                let woken = swakers[r].0.load(Ordering::SeqCst) > sseen[r];
+                if woken != e.obs.swake[r] { mm.push(format!("shutdown future of runner {} woken since its last poll: {woken}, specification {}", r + 1, e.obs.swake[r])); }
+            }
+        }
+        // final observation (destructive): which live tokens see a stop request
+        for f in 0..nf {
+            if let Some(t) = tokens[f].take() {
+                match token_sees_stop(t) {
+                    Ok(s) => if s != e.obs.stopped[f] { mm.push(format!("token {} (runner {}) sees a stop request: {s}, specification {}", f + 1, f % 2 + 1, e.obs.stopped[f])); },
+                    Err(what) => mm.push(format!("token {}: {what}", f + 1)),
+                }
+            }
+        }
+    }
+    futs.clear();
+    for r in 0..2 { if alive[r] { drop(unsafe { Box::from_raw(ptrs[r]) }); } }
+    mm
+}
+
 pub fn run_replay(prop: &str, which: &str, input: impl BufRead, mut log: Option<std::fs::File>, rep: &mut Report) {
     use std::io::Write;
     let prev_hook = std::panic::take_hook();
@@ -163,7 +279,11 @@ pub fn run_replay(prop: &str, which: &str, input: impl BufRead, mut log: Option<
         let inner: String = serde_json::from_str(&line).unwrap_or_else(|e| { eprintln!("malformed TLC line: {e}"); std::process::exit(2) });
         if inner.starts_with("{\"t\":\"case\"") { continue; }
         let v: Value = serde_json::from_str(&inner).unwrap_or(Value::Null);
-        let (mm, nontrivial) = if which == "runner" {
+        let (mm, nontrivial) = if which == "server" {
+            let e: SEdge = serde_json::from_str(&inner).unwrap_or_else(|e| { eprintln!("malformed edge: {e}: {inner:.300}"); std::process::exit(2) });
+            let nt = e.h.iter().any(|o| o[0] == "shutdown");
+            (catch_unwind(AssertUnwindSafe(|| replay_server(&e))).unwrap_or_else(|_| vec!["panic in code under test".into()]), nt)
+        } else if which == "runner" {
             let e: REdge = serde_json::from_str(&inner).unwrap_or_else(|e| { eprintln!("malformed edge: {e}: {inner:.300}"); std::process::exit(2) });
             let nt = e.h.iter().any(|o| o[0] == "dropt" || o[0] == "dropf");
             (catch_unwind(AssertUnwindSafe(|| replay_runner(&e))).unwrap_or_else(|_| vec!["panic in code under test".into()]), nt)
@@ -183,8 +303,11 @@ pub fn run_replay(prop: &str, which: &str, input: impl BufRead, mut log: Option<
 }
 
 pub fn replay_file(prop: &str, r: &Value, rep: &mut Report) {
-    let which = if r["kind"] == "runner-edge" { "runner" } else { "waitgroup" };
-    let mm = if which == "runner" {
+    let which = if r["kind"] == "runner-edge" { "runner" } else if r["kind"] == "server-edge" { "server" } else { "waitgroup" };
+    let mm = if which == "server" {
+        let e: SEdge = serde_json::from_value(r["edge"].clone()).unwrap_or_else(|e| { eprintln!("replay: {e}"); std::process::exit(2) });
+        replay_server(&e)
+    } else if which == "runner" {
         let e: REdge = serde_json::from_value(r["edge"].clone()).unwrap_or_else(|e| { eprintln!("replay: {e}"); std::process::exit(2) });
         replay_runner(&e)
     } else {
